@@ -22,6 +22,7 @@ pub struct Report {
     pub inconclusive: BTreeMap<String, u64>,
     pub notes: Vec<String>,
     pub harness_errors: Vec<String>,
+    pub distinct: BTreeMap<String, std::collections::HashSet<u64>>,
 }
 
 pub static REPORT: Mutex<Option<Report>> = Mutex::new(None);
@@ -70,6 +71,21 @@ pub fn sample(text: String) {
             r.samples.push(text);
         }
     });
+}
+
+/// Counts distinct cases: `name` becomes a counter holding the number of different `key`s seen.
+pub fn distinct(name: &str, key: &str) {
+    let mut h: u64 = 1469598103934665603;
+    for b in key.bytes() {
+        h = (h ^ u64::from(b)).wrapping_mul(1099511628211);
+    }
+    with(|r| {
+        r.distinct.entry(name.to_string()).or_default().insert(h);
+    });
+}
+
+pub fn count_shape(shape: &str) {
+    distinct("C15.nontrivial", shape);
 }
 
 pub fn want_sample() -> bool {
@@ -146,8 +162,12 @@ pub fn render() -> String {
                 .join(","),
         );
         s.push_str("},\n\"counters\":{");
+        let mut counters = r.counters.clone();
+        for (k, v) in &r.distinct {
+            *counters.entry(k.clone()).or_insert(0) += v.len() as u64;
+        }
         s.push_str(
-            &r.counters
+            &counters
                 .iter()
                 .map(|(k, v)| format!("{}:{}", esc(k), v))
                 .collect::<Vec<_>>()
